@@ -162,6 +162,7 @@ def _apply(c, it, o, g, op, draws, ext, uid):
         g.raw = M
     elif op in ("pl1", "pl2"):
         P = _pmat(c, "P%s" % uid, 2, 2)
+        g.caller_P = P
         if ext:
             E = _pmat(c, "E%s" % uid, 2, 1)
             it.call(it.getattr(o, "set_pathloss"), [P, E])
@@ -311,6 +312,67 @@ def ob_histories(first, ext):
     if quick():
         seqs = [s for s in seqs if len(s) < 3 or (s[1] != s[2])]
     return merge([_one_history(s, ext) for s in seqs])
+
+
+@obligation("views/reported_pathloss_cannot_drift", params=[{"ext": e, "via": v} for e in (False, True) for v in ("callers_array", "reported_property")],
+            timeout=300,
+            desc="the path loss the object REPORTS is the one its views use: after set_pathloss(P) (symbolic P) an element of the caller's array "
+                 "P, resp. of the array returned by .pathloss, is overwritten in place (no new set_pathloss call) - either the write is refused "
+                 "(read-only array, nothing changes) or every view (H, big_H, get_Hkl, get_Hk) follows the path loss that .pathloss reports "
+                 "now; the same after a later randomize")
+def ob_pathloss_drift(ext, via):
+    def body(c, it):
+        draws = []
+        _install_models(c, it, draws)
+        o, g = _new(c, it, ext)
+        _apply(c, it, o, g, "randA", draws, ext, "0")
+        _apply(c, it, o, g, "pl1", draws, ext, "1")
+        goals = _view_goals(c, it, o, g, "set_pathloss", ext)
+        q = c.var("q", "real")
+        c.assume((q >= 0) & (q <= 1))
+        wrote = False
+        try:
+            arr = g.caller_P if via == "callers_array" else it.getattr(o, "pathloss")
+            arr[0, 1] = q
+            wrote = True
+        except ValueError:
+            wrote = False          # read-only: the object protected itself
+        rep = it.getattr(o, "pathloss")
+        goals.append(Goal("a path loss is still reported (receivers x all transmitters)", isinstance(rep, np.ndarray) and rep.shape == (2, 2 + g.ext)))
+        if not goals[-1].cond:
+            return goals
+        g.pl = np.asarray(rep, dtype=object)
+        goals += _view_goals(c, it, o, g, "in-place write %s" % ("went through" if wrote else "refused"), ext)
+        _apply(c, it, o, g, "randB", draws, ext, "2")
+        g.pl = np.asarray(it.getattr(o, "pathloss"), dtype=object)
+        goals += _view_goals(c, it, o, g, "then randomize", ext)
+        return goals
+
+    def rp(mv):
+        import pyphysim.channels.multiuser as mu
+        try:
+            rr = np.random.RandomState(5)
+            o = mu.MultiUserChannelMatrixExtInt() if ext else mu.MultiUserChannelMatrix()
+            Nr, Nt = SPLIT_A
+            o.randomize(*([Nr.copy(), Nt.copy(), 2] + ([1] if ext else [])))
+            raw = np.array(o._big_H_no_pathloss)
+            P, E = rr.rand(2, 2), rr.rand(2, 1)
+            o.set_pathloss(*([P, E] if ext else [P]))
+            try:
+                (P if via == "callers_array" else o.pathloss)[0, 1] = 0.0625
+                wrote = True
+            except ValueError:
+                wrote = False
+            pl = np.array(o.pathloss)
+            bad = _native_views(o, raw, Nr, np.hstack([Nt, [1]]) if ext else Nt, pl, 2, 1 if ext else 0)
+            if bad:
+                return dict(bad, confirmed=True, history="randomize, set_pathloss(P), %s[0, 1] = 0.0625 (%s)" % (
+                    "P" if via == "callers_array" else "channel.pathloss", "accepted" if wrote else "refused"),
+                    reported_pathloss=np.array(o.pathloss).tolist())
+            return {"confirmed": False, "in-place write": "accepted" if wrote else "refused (read-only)"}
+        except Exception as e:
+            return {"confirmed": False, "error": "replay crashed: %r" % (e,)}
+    return verify(body, check_side=False, timeout_ms=60000, replay=rp)
 
 
 @obligation("views/inductive_cache_coherence", params=[{"ext": e} for e in (False, True)], timeout=600,
